@@ -27,12 +27,22 @@ impl EventLog {
     }
 
     pub fn append(&self, event: &Event) -> io::Result<()> {
+        #[cfg(rip_verif)]
+        rip_kernel::verif::lock_point("log.writer", &|| self.writer.try_lock().is_ok());
         let mut writer = self.writer.lock().expect("event log mutex");
         let line = serde_json::to_string(event)
             .map_err(|err| io::Error::new(io::ErrorKind::InvalidData, err))?;
+        #[cfg(rip_verif)]
+        rip_kernel::verif::point("log.write_body");
         writer.write_all(line.as_bytes())?;
+        #[cfg(rip_verif)]
+        rip_kernel::verif::point("log.write_newline");
         writer.write_all(b"\n")?;
+        #[cfg(rip_verif)]
+        rip_kernel::verif::point("log.flush");
         writer.flush()?;
+        #[cfg(rip_verif)]
+        rip_kernel::verif::point("log.appended");
         Ok(())
     }
 
@@ -80,12 +90,18 @@ pub fn write_snapshot(
     let dir = dir.as_ref();
     fs::create_dir_all(dir)?;
     let path = dir.join(format!("{session_id}.json"));
+    #[cfg(rip_verif)]
+    rip_kernel::verif::point("snapshot.create");
     let file = File::create(&path)?;
     let mut writer = BufWriter::new(file);
     let payload = serde_json::to_string_pretty(events)
         .map_err(|err| io::Error::new(io::ErrorKind::InvalidData, err))?;
+    #[cfg(rip_verif)]
+    rip_kernel::verif::point("snapshot.write");
     writer.write_all(payload.as_bytes())?;
     writer.flush()?;
+    #[cfg(rip_verif)]
+    rip_kernel::verif::point("snapshot.written");
     Ok(path)
 }
 
